@@ -136,6 +136,21 @@ def make_cases(ctx):
                 for i, n in zip(us, ns):
                     setkw(kw, UNITS[i], n)
                 add("c04", s, b, kw, dir_, rng.choice(PDF), None, [UNITS[i] for i in us], [{"u": UNITS[i], "num": n, "den": 1} for i, n in zip(us, ns)])
+            # a month / year step TOGETHER WITH a clock step that carries the reference over midnight (month ends, leap days):
+            # the calendar step is taken on the reference, the clock step afterwards - whichever comes first in the phrase
+            for _ in range(2 if ctx.quick() else 8):
+                cal, clk = rng.choice(["month", "year", "decade"]), rng.choice(["hour", "hour", "minute"])
+                n1 = rng.choice([1, 1, 2, 11, 12])
+                n2 = rng.choice([1, 2, 11, 13, 25, 1000]) if clk == "hour" else rng.choice([1, 31, 61, 1441])
+                us_ = [cal, clk] if rng.random() < 0.7 else [clk, cal]
+                ns_ = [n1 if u == cal else n2 for u in us_]
+                dir_ = rng.choice(["ago", "in"])
+                parts = ["%d %s" % (n, word(u, n, rng)) for u, n in zip(us_, ns_)]
+                s = (rng.choice([", ".join(parts), " and ".join(parts), " ".join(parts)]) + " ago") if dir_ == "ago" else "in " + rng.choice([" ".join(parts), " and ".join(parts)])
+                kw = kw0()
+                for u, n in zip(us_, ns_):
+                    setkw(kw, u, n)
+                add("c04", s, b, kw, dir_, rng.choice(PDF), None, list(us_), [{"u": u, "num": n, "den": 1} for u, n in zip(us_, ns_)])
             # several units with DECIMAL counts on the sub-day ones (decimal point), in either order of writing: the units add up
             for _ in range(2 if ctx.quick() else 6):
                 us = rng.sample(["hour", "minute", "second", "day", "week"], rng.choice([2, 2, 3]))
